@@ -375,14 +375,37 @@ bool safety_nontrivial(const std::vector<std::string>& args) {   // the first ar
 std::string show_ids(const std::vector<int>& v) { std::string o; for (int x : v) o += sfmt("%d ", x); return o; }
 
 // `c` is the configuration the run has to follow (MEANING: from the interpreter; SAFETY: read back from the getters)
+// One process, one registry, several argument vectors one after the other (each with its own runner object).
+// What legitimately outlives a vector, because the registry / shell interface only has one-way switches for it and the
+// runner never takes it back: run-ignored (-ri), separate process (-p), crash on failure (-f), and the order of the list
+// (-b reverses the list the runner finds, -s leaves it shuffled).  Everything else must follow the current vector only.
+struct Session {
+    TestRegistry reg; std::vector<std::unique_ptr<UtestShell>> shells; std::map<const UtestShell*, int> ids;
+    bool ri = false, sep = false, crash = false; size_t vectors_run = 0;
+    Session() {
+        for (size_t i = 0; i < NP; i++) { shells.emplace_back(PROBES[i].ignored ? (UtestShell*)new IgnoredProbeShell((int)i) : (UtestShell*)new ProbeShell((int)i)); ids[shells.back().get()] = (int)i; }
+        for (size_t i = NP; i-- > 0;) reg.addTest(shells[i].get());   // registry order = index order
+    }
+    bool walk(std::vector<int>& order) {
+        order.clear(); size_t steps = 0;
+        for (UtestShell* t = reg.getFirstTest(); t != NULLPTR; t = t->getNext()) { if (++steps > NP) return false; auto it = ids.find(t); order.push_back(it == ids.end() ? -1 : it->second); }
+        std::vector<int> sorted = order; std::sort(sorted.begin(), sorted.end());
+        for (size_t i = 0; i < NP; i++) if (sorted.size() != NP || sorted[i] != (int)i) return false;
+        return true;
+    }
+};
+
 // real_entry: through the static CommandLineTestRunner::RunAllTests(ac, av) with the real output objects; what they write is caught at the file seams
-int run_through_runner(const Argv& argv, bool expect_reject, bool expect_help, const Config& c, const std::string& ctx, bool real_entry, bool exact_names) {
+int run_through_runner(Session& ses, const Argv& argv, bool expect_reject, bool expect_help, const Config& c_vector, const std::string& ctx, bool real_entry, bool exact_names) {
     MemoryLeakWarningPlugin memleak(DEF_PLUGIN_MEM_LEAK);
-    TestRegistry reg;
+    TestRegistry& reg = ses.reg;
     reg.setCurrentRegistry(&reg);
-    std::vector<std::unique_ptr<UtestShell>> shells;
-    for (size_t i = 0; i < NP; i++) shells.emplace_back(PROBES[i].ignored ? (UtestShell*)new IgnoredProbeShell((int)i) : (UtestShell*)new ProbeShell((int)i));
-    for (size_t i = NP; i-- > 0;) reg.addTest(shells[i].get());   // registry order = index order
+    reg.resetPlugins();
+    Config c = c_vector;   // the vector's own meaning, plus the one-way switches an earlier vector of this process has thrown
+    c.runIgnored = c.runIgnored || ses.ri; c.sep = c.sep || ses.sep; c.crash = c.crash || ses.crash;
+    std::vector<int> start_order;
+    if (!ses.walk(start_order)) return verif::fail("C12:registry-list", "the registry's list is not a permutation of the probes before vector %zu [%s]", ses.vectors_run + 1, ctx.c_str());
+    ses.vectors_run++;
     if (!real_entry) reg.installPlugin(&memleak);
     PlatformSpecificRunTestInASeperateProcess = sep_process_stub;
     g_files.clear(); g_stdout.clear();
@@ -422,7 +445,7 @@ int run_through_runner(const Argv& argv, bool expect_reject, bool expect_help, c
             }
             // order of every repetition
             if (!rc && !listing) {
-                std::vector<int> base; for (size_t i = 0; i < NP; i++) if (runs[i]) base.push_back((int)i);
+                std::vector<int> base; for (int id : start_order) if (runs[(size_t)id]) base.push_back(id);   // the order the runner finds
                 if (c.reverse) std::reverse(base.begin(), base.end());
                 size_t per = base.size();
                 for (size_t rep = 0; rep < c.repeat && !rc; rep++) {
@@ -497,7 +520,7 @@ int run_through_runner(const Argv& argv, bool expect_reject, bool expect_help, c
                 if (real_entry) { all = g_stdout; single = c.output != OUT_JUNIT; }
                 if (c.lg) {
                     std::vector<std::string> seen; std::string want;
-                    for (size_t i = 0; i < NP; i++) if (std::find(seen.begin(), seen.end(), PROBES[i].group) == seen.end()) { seen.push_back(PROBES[i].group); want += (want.empty() ? "" : " ") + std::string(PROBES[i].group); }
+                    for (int id : start_order) { size_t i = (size_t)id; if (std::find(seen.begin(), seen.end(), PROBES[i].group) == seen.end()) { seen.push_back(PROBES[i].group); want += (want.empty() ? "" : " ") + std::string(PROBES[i].group); } }
                     if (single && all != want) rc = verif::fail("C12:list-groups", "-lg printed \"%s\", expected \"%s\" [%s]", verif::printable(all).substr(0, 300).c_str(), want.c_str(), ctx.c_str());
                 } else if (c.ln) {
                     // every selected test must be listed as group.name, nothing that is not a registered test (whether filters apply is not documented)
@@ -516,12 +539,15 @@ int run_through_runner(const Argv& argv, bool expect_reject, bool expect_help, c
         }
         g_outs.clear();
     }
+    reg.resetPlugins();
+    PlatformSpecificFOpen = g_orig_fopen; PlatformSpecificFPuts = g_orig_fputs; PlatformSpecificFClose = g_orig_fclose; PlatformSpecificFlush = g_orig_flush;
+    if (!expect_reject) { ses.ri = ses.ri || c_vector.runIgnored; ses.sep = ses.sep || c_vector.sep; ses.crash = ses.crash || c_vector.crash; }
     return rc;
 }
 
 std::string show_args(const std::vector<std::string>& args) { std::string o; for (size_t i = 1; i < args.size(); i++) o += "[" + verif::printable(args[i]) + "] "; return o; }
 
-int meaning_case(Reader& r, bool& nontrivial, std::string& desc) {
+int meaning_vector(Reader& r, Session& ses, bool& nontrivial, std::string& desc) {
     Config want; std::vector<std::string> args; args.push_back("probe.exe");
     size_t nopt = r.below(9);
     bool help = false; size_t valued = 0; bool sep_or_pair = false;
@@ -543,12 +569,11 @@ int meaning_case(Reader& r, bool& nontrivial, std::string& desc) {
     if (real_entry) verif::cls("runner:real-entry-point");
     nontrivial = nopt >= 2 && args.size() > 2 && valued >= 1 && sep_or_pair;
     desc = "meaning: " + show_args(args);
-    if (verif::g_explain) fprintf(stderr, "case: %s\n", desc.c_str());
+    if (verif::g_explain) fprintf(stderr, "case: vector %zu of the process: %s\n", ses.vectors_run + 1, desc.c_str());
     verif::cls(help ? "meaning:help" : "meaning:configuration");
     if (!want.gf.empty() || !want.nf.empty()) verif::cls("meaning:with-filters");
     if (want.gf.size() > 1 || want.nf.size() > 1) verif::cls("meaning:filter-list-of-2+");
 
-    GlobalsGuard guard;
     Argv argv(args);
     if (seeds_flipped) {
         // attached and separated form of a documented option mean the same: same verdict, same configuration, whatever the operand
@@ -645,21 +670,34 @@ int meaning_case(Reader& r, bool& nontrivial, std::string& desc) {
         for (auto& f : want.nf) if (!f.strict) for (size_t i = 0; i < NP; i++) if (needs_backtracking(PROBES[i].name, f.text)) nb = true;
         if (nb) verif::cls("meaning:substring-occurrence-after-overlapping-false-start");
     }
-    if (help || want.repeat <= 4) { verif::cls("runner:driven"); return run_through_runner(argv, help, help, want, desc, real_entry, true); }
+    if (help || want.repeat <= 4) { verif::cls("runner:driven"); return run_through_runner(ses, argv, help, help, want, desc, real_entry, true); }
     verif::cls("runner:skipped-large-repeat");
     return 0;
 }
+// a process: 1..3 vectors one after the other on the same registry, each judged on its own
+int meaning_case(Reader& r, bool& nontrivial, std::string& desc) {
+    GlobalsGuard guard;
+    Session ses;
+    int rc = meaning_vector(r, ses, nontrivial, desc);
+    size_t more = rc ? 0 : r.below(3);   // trailing: old inputs are a process with one vector
+    for (size_t k = 0; k < more && !rc; k++) {
+        bool nt; std::string d;
+        rc = meaning_vector(r, ses, nt, d);
+        desc += " ; then " + d;
+    }
+    if (ses.vectors_run > 1) verif::cls(ses.vectors_run == 2 ? "process:2-vectors-run-on-one-registry" : "process:3-vectors-run-on-one-registry");
+    return rc;
+}
 
-int safety_case(Reader& r, bool literal, bool& nontrivial, std::string& desc) {
+int safety_vector(Reader& r, Session& ses, bool literal, bool& nontrivial, std::string& desc) {
     std::vector<std::string> args; args.push_back("probe.exe");
     for (auto& a : literal ? gen_safety_literal(r) : gen_safety_structured(r)) args.push_back(a);
     bool real_entry = !literal && r.below(4) == 1;
     if (real_entry) verif::cls("runner:real-entry-point");
     nontrivial = safety_nontrivial(std::vector<std::string>(args.begin() + 1, args.end()));
     desc = std::string(literal ? "safety(literal): " : "safety: ") + show_args(args);
-    if (verif::g_explain) fprintf(stderr, "case: %s\n", desc.c_str());
+    if (verif::g_explain) fprintf(stderr, "case: vector %zu of the process: %s\n", ses.vectors_run + 1, desc.c_str());
 
-    GlobalsGuard guard;
     Argv argv(args);
     Config got; bool ok;
     {
@@ -678,12 +716,25 @@ int safety_case(Reader& r, bool literal, bool& nontrivial, std::string& desc) {
             if (!got.gf.empty() || !got.nf.empty()) verif::cls("safety:accepted-with-filters");
         } else {
             verif::cls("runner:driven");
-            return run_through_runner(argv, true, help, got, desc, real_entry, false);
+            return run_through_runner(ses, argv, true, help, got, desc, real_entry, false);
         }
     }
-    if (got.repeat <= 4) { verif::cls("runner:driven"); return run_through_runner(argv, false, false, got, desc, real_entry, false); }
+    if (got.repeat <= 4) { verif::cls("runner:driven"); return run_through_runner(ses, argv, false, false, got, desc, real_entry, false); }
     verif::cls("runner:skipped-large-repeat");
     return 0;
+}
+int safety_case(Reader& r, bool literal, bool& nontrivial, std::string& desc) {
+    GlobalsGuard guard;
+    Session ses;
+    int rc = safety_vector(r, ses, literal, nontrivial, desc);
+    size_t more = (rc || literal) ? 0 : r.below(3);
+    for (size_t k = 0; k < more && !rc; k++) {
+        bool nt; std::string d;
+        rc = safety_vector(r, ses, false, nt, d);
+        desc += " ; then " + d;
+    }
+    if (ses.vectors_run > 1) verif::cls(ses.vectors_run == 2 ? "process:2-vectors-run-on-one-registry" : "process:3-vectors-run-on-one-registry");
+    return rc;
 }
 
 }  // namespace
